@@ -377,6 +377,55 @@ func ruleC14(c *Ctx, r *Report) {
 		}
 	}
 	r.Check(okM, "C14-R3", matcher.Name()+":whole-path", c.Pos(matcher.Pos()), detail, detail)
+
+	// the names on the path: a dotted key ("patient.SSN") names every field on the way, and a
+	// key that starts with '$' (operator, extended-JSON wrapper) names none
+	splitOK, dollarOK := false, true
+	nMatch := 0
+	allInstrs(matcher, func(i ssa.Instruction) {
+		call, ok := i.(*ssa.Call)
+		if !ok {
+			return
+		}
+		switch calleeKey(&call.Call) {
+		case "strings.Split":
+			if sep, ok := constString(call.Call.Args[1]); ok && sep == "." {
+				// its result is ranged over and each component goes to MatchString
+				for _, l := range iterLoops(matcher) {
+					if l.Kind == "slice" && l.Coll == ssa.Value(call) {
+						for b := range l.Loop.Body {
+							for _, in := range b.Instrs {
+								if mc, ok := in.(*ssa.Call); ok && calleeKey(&mc.Call) == "(*regexp.Regexp).MatchString" {
+									if ld, ok := mc.Call.Args[1].(*ssa.UnOp); ok {
+										if ia, ok := ld.X.(*ssa.IndexAddr); ok && ia.X == l.Coll {
+											splitOK = true
+										}
+									}
+								}
+							}
+						}
+					}
+				}
+			}
+		case "(*regexp.Regexp).MatchString":
+			nMatch++
+			notOp := false
+			for _, a := range p.atomsAt(call.Block()) {
+				if a.Kind == "dollar" && !a.Pol {
+					notOp = true
+				}
+			}
+			if !notOp {
+				dollarOK = false
+			}
+		}
+	})
+	r.Check(splitOK, "C14-R3", matcher.Name()+":dot-notation", c.Pos(matcher.Pos()),
+		"each element of the path is also split on '.' and every component is matched: {\"patient.SSN\": ...} is under the names patient and SSN",
+		"a dotted key is matched as one string only: with an anchored expression such as ^SSN$ the literal under {\"patient.SSN\": ...} stays in clear although the field SSN is on its path")
+	r.Check(dollarOK && nMatch > 0, "C14-R3", matcher.Name()+":operators-are-not-names", c.Pos(matcher.Pos()),
+		"every application of the expression is guarded by 'the key does not start with $': operators and extended-JSON wrappers are not field names",
+		"operator names and extended-JSON wrapper keys ($oid, $date, $in ...) are matched against the expression as if they were field names: an expression such as (?i)id$ redacts every ObjectId although no field name matches")
 }
 
 // pathMatcherFn: the selective-mode path matcher, found by role - a package function on
